@@ -129,6 +129,16 @@ check('C10', 'exploration',
       'all 22 families, both implementations, centred and extreme universes.',
       TB, 'exhaustive enumeration of the operand cube against set algebra', 'E5', 'DESIGN.md §4 C10')
 
+check('C12', 'exploration',
+      'For every ordered pair of key subsets, every pair of operand forms (Set, TreeSet, Bucket, BTree in two '
+      'shapes, None) and every weight pair of the value type\'s alphabet (incl. 0, negative, beyond 32 bits, '
+      'fractional for float families, and the default-weight call forms) weightedUnion and '
+      'weightedIntersection are compared with the documented formula evaluated exactly (returned weight, '
+      'result kind, items), unrepresentable exact results being skipped; operands unchanged; all 16 '
+      'numeric-valued families, both implementations.',
+      TB, 'exhaustive enumeration of the operand x weight cube against the documented formula', 'E5',
+      'DESIGN.md §4 C12')
+
 PENDING = ['C%02d' % i for i in range(1, 20)]
 
 
